@@ -9,6 +9,7 @@ import (
 	"math/rand"
 	"strings"
 	"testing/iotest"
+	"time"
 
 	"github.com/cloudwego/gopkg/bufiox"
 
@@ -210,6 +211,25 @@ func (ct *coTenant) done() {
 // runReaderHistory executes ops against a real bufiox reader and checks every result
 // against the cursor model. It returns flags used for the non-triviality rule.
 func runReaderHistory(cs *drv.Case, ops []rOp, spec srcSpec, o readerOpts) (nontrivial bool) {
+	// a history is a handful of in-memory calls (microseconds). A call of the library that has not returned
+	// after historyBound is a call that does not return: the only wall-clock verdict of the framework,
+	// five orders of magnitude above the cost of what it bounds.
+	returned, pnc := cs.C.Bounded(historyBound, "reader history "+opsString(ops), func() {
+		nontrivial = runReaderHistoryInner(cs, ops, spec, o)
+	})
+	if pnc != nil {
+		panic(pnc)
+	}
+	if !returned {
+		cs.Fail("operation-never-returned", M{"reader": "history"}, M{"ops": opsString(ops), "source": spec.desc(), "bytes_reader": o.bytesReader,
+			"message": fmt.Sprintf("a reader operation of this history had not returned after %v", historyBound)})
+	}
+	return nontrivial
+}
+
+const historyBound = 120 * time.Second
+
+func runReaderHistoryInner(cs *drv.Case, ops []rOp, spec srcSpec, o readerOpts) (nontrivial bool) {
 	var rd bufiox.Reader
 	var src *doubles.Source
 	var caller *san.Canary
